@@ -75,7 +75,7 @@ def _tw_mc_dist(c, tier):
                    "once the GVT has passed them (msg_allocator_on_gvt)", workers=16, timeout=3000, heap="16g")
 
 
-def _replay(c, tier, dist=False):
+def _replay(c, tier, dist=False, exhaustive_m1=True):
     """behaviours of TimeWarpMC imposed on the real code (spec -> code direction of the binding)"""
     if tier == "quick":
         c.replay_phase("m1", "TimeWarpMC_m1.tla", "TimeWarpMC_m1_k1.cfg", 160, sim_num=60)
@@ -84,7 +84,10 @@ def _replay(c, tier, dist=False):
             c.replay_phase("d2", "TimeWarpMC_d2.tla", "TimeWarpMC_d2_k1.cfg", 80, ranks=2, threads=2, sim_num=40)
     else:
         # every behaviour of m1 (all orders of the shared accesses of the two threads)
-        c.replay_phase("m1", "TimeWarpMC_m1.tla", "TimeWarpMC_m1_k1.cfg", 200000, exhaustive=True)
+        if exhaustive_m1:
+            c.replay_phase("m1", "TimeWarpMC_m1.tla", "TimeWarpMC_m1_k1.cfg", 200000, exhaustive=True)
+        else:
+            c.replay_phase("m1", "TimeWarpMC_m1.tla", "TimeWarpMC_m1_k1.cfg", 8000, sim_num=3000)
         c.replay_phase("m2", "TimeWarpMC_m2.tla", "TimeWarpMC_m2_k1.cfg", 6000, sim_num=2500)
         if dist:
             c.replay_phase("d1", "TimeWarpMC_d1.tla", "TimeWarpMC_d1_k1.cfg", 6000, ranks=2, threads=1, sim_num=2500)
@@ -243,7 +246,7 @@ def check_C06(tier, seed):
         c.micro_phase("m2", 64 if tier == "quick" else 3000)
         c.micro_phase("d1", 48 if tier == "quick" else 2000, ranks=2, threads=1)
         c.micro_phase("d2", 48 if tier == "quick" else 2000, ranks=2, threads=2)
-        _replay(c, tier, dist=True)
+        _replay(c, tier, dist=True, exhaustive_m1=False)   # (every behaviour of m1 is replayed by ./check C01 thorough)
         fams = ["fanout", "chain", "mixed", "fanout", "zerodelay", "chain", "ties"]
         c.run(_models(tier, seed, fams, 7, 30), 5 if tier == "quick" else 12, emphasis=em)
         c.run(_models(tier, seed + 50, fams + ["burst"], 4, 16), 6 if tier == "quick" else 14, emphasis=DIST_EM)
